@@ -219,6 +219,16 @@ def restorer_exit_contract():
                             name="_ParametersRestorer.__exit__")
 
 
+def _dispatch_extras():
+    """exceptional halves of trigger / flush / _call_watcher (defined with C03/C04)"""
+    import sys
+    if getattr(sys.modules.get("contracts.c04"), "_building", False):
+        return []
+    from contracts import c03 as _c03
+    from contracts import c04 as _c04
+    return [_c04.trigger_contract(), _c04.flush_contract(), _c03.call_watcher_contract()]
+
+
 def contracts():
     return [
         manager_contract("batch_call_watchers", "batch_call_watchers(o)", post_extra=post_batch),
@@ -228,7 +238,7 @@ def contracts():
         as_uninitialized_contract(),
         restorer_exit_contract(),
         update_contract(),
-    ]
+    ] + _dispatch_extras()
 
 
 ASSUMPTIONS = [
